@@ -273,6 +273,25 @@ example : XsdLex.base64Binary "AAEC AwQF".toList = true ∧ XsdLex.base64Binary 
 example : b64FromText facts08x "AAEC\nAwQF".toList = some [0, 1, 2, 3, 4, 5] := by decide +kernel
 example : XsdLex.hexBinary " 0aFF\n".toList = true ∧ XsdLex.hexBinary "0a FF".toList = false := by decide +kernel
 
+/-! ### which encoding a ByteArray travels in -/
+
+/-- `ByteArray(encoding=e)` under any protocol (XmlDocument/Soap suggest base64, HttpRpc urlsafe base64): the declared
+    encoding is the one written, so the text is a literal of the advertised schema type (xs:hexBinary for hex,
+    xs:base64Binary for base64) and the protocol reads its own output back.  Rests on `declaredBeatsSuggested`. -/
+theorem bytearray_declared_encoding (e : BaEnc) (suggested protoDefault : Option BaEnc) (bs : List Nat) (h : bytesOk bs) :
+    byteArrayToTextP facts08x (some e) suggested protoDefault bs = some (encodeWith e bs) ∧
+    advertisedLex e (encodeWith e bs) = true ∧
+    byteArrayFromTextP (some e) suggested (encodeWith e bs) = some bs :=
+  byteArray_declared facts08x (by decide) e suggested protoDefault bs h
+
+theorem bytearray_suggested_encoding (e : BaEnc) (protoDefault : Option BaEnc) (bs : List Nat) (h : bytesOk bs) :
+    byteArrayToTextP facts08x none (some e) protoDefault bs = some (encodeWith e bs) ∧
+    byteArrayFromTextP none (some e) (encodeWith e bs) = some bs :=
+  byteArray_suggested facts08x e protoDefault bs h
+
+example : byteArrayToTextP facts08x (some .hex) (some .base64) (some .base64) [251, 255] = some "fbff".toList := by decide
+example : byteArrayToTextP facts08x none none none [1] = none := by decide
+
 /-! ### Double: the wrapper around CPython's `repr(float)` / `float(str)` -/
 
 /-- PARTIAL by design (DESIGN §4 C08, Float note a): CPython's shortest-repr and its parser are assumed, as
